@@ -282,6 +282,54 @@ def _is_opaque_star_import(node: ast.ImportFrom) -> bool:
     return _export_list_is_opaque(origin_root)
 
 
+def _is_bound_in_a_way_that_is_not_read(name: str, root: ast.Module) -> bool:
+    """Whether name is assigned to at module level anywhere but in the kinds of statement that
+    trace_origin reads.
+
+    Those are =, annotated =, := (and import, def, class, which spell the name as a str). Augmented
+    assignments, loop targets, with .. as, del and so on store the name as well.
+    """
+    scopes_of_their_own = (
+        ast.FunctionDef,
+        ast.AsyncFunctionDef,
+        ast.ClassDef,
+        ast.Lambda,
+        ast.ListComp,
+        ast.SetComp,
+        ast.DictComp,
+        ast.GeneratorExp,
+    )
+    module_level_nodes = []
+    nodes_left = list(root.body)
+    while nodes_left:
+        node = nodes_left.pop()
+        module_level_nodes.append(node)
+        if not isinstance(node, scopes_of_their_own):
+            nodes_left.extend(ast.iter_child_nodes(node))
+
+    stores = stores_that_are_read = 0
+    for node in module_level_nodes:
+        if isinstance(node, ast.Name) and node.id == name:
+            stores += isinstance(node.ctx, (ast.Store, ast.Del))
+        elif isinstance(node, (ast.ExceptHandler, ast.MatchAs, ast.MatchStar)):
+            stores += node.name == name
+        if isinstance(node, ast.Assign):
+            targets = node.targets
+        elif isinstance(node, (ast.AnnAssign, ast.NamedExpr)):
+            targets = [node.target]
+        else:
+            continue
+        stores_that_are_read += sum(
+            isinstance(child, ast.Name)
+            and child.id == name
+            and isinstance(child.ctx, ast.Store)
+            for target in targets
+            for child in ast.walk(target)
+        )
+
+    return stores != stores_that_are_read
+
+
 @functools.lru_cache(maxsize=100_000)
 def trace_origin(
     name: str, source: str, *, __all__: bool = False, _depth: int = 0
@@ -366,6 +414,9 @@ def trace_origin(
 
         elif name.startswith("_"):
             return None  # Without __all__, a star import leaves out the names with a leading underscore
+
+    if _is_bound_in_a_way_that_is_not_read(name, root):
+        return None  # x += 1, for x in ..: where its value comes from cannot be said
 
     for node in sorted(nodes, key=lambda n: (n.lineno, n.col_offset), reverse=True):
         if isinstance(node, (ast.Import, ast.ImportFrom)):
